@@ -9,6 +9,7 @@
 
 #include <fcntl.h>
 #include <sys/mman.h>
+#include <sys/resource.h>
 #include <sys/wait.h>
 #include <unistd.h>
 
@@ -396,7 +397,10 @@ int main(int argc, char** argv) {
     *done = 0;
     pid_t pid = fork();
     if (pid == 0) {
-      alarm(60);   // a corrupted heap may spin forever: SIGALRM -> status crash
+      // a corrupted heap may spin forever: SIGXCPU after 4 s of CPU / SIGALRM after 60 s -> status crash
+      struct rlimit rl = {4, 5};
+      setrlimit(RLIMIT_CPU, &rl);
+      alarm(60);
       child(ops, ext, nvars, out, done);
       fflush(out);
       _exit(0);
